@@ -129,11 +129,22 @@ func otlpTraceBody(markers []string, seed uint64, first int) []byte {
 	return b
 }
 
-func otlpLogsBody(markers []string) []byte {
+func otlpLogsBody(markers []string, seed uint64, first int) []byte {
 	var recs []*logspb.LogRecord
-	for _, mk := range markers {
-		recs = append(recs, &logspb.LogRecord{TimeUnixNano: 1700000000_000000000, Body: &commonpb.AnyValue{Value: &commonpb.AnyValue_StringValue{StringValue: "log " + mk}},
-			Attributes: []*commonpb.KeyValue{{Key: "mk", Value: &commonpb.AnyValue{Value: &commonpb.AnyValue_StringValue{StringValue: mk}}}}})
+	for i, mk := range markers {
+		rec := &logspb.LogRecord{TimeUnixNano: 1700000000_000000000, Body: &commonpb.AnyValue{Value: &commonpb.AnyValue_StringValue{StringValue: "log " + mk}},
+			Attributes: []*commonpb.KeyValue{{Key: "mk", Value: &commonpb.AnyValue{Value: &commonpb.AnyValue_StringValue{StringValue: mk}}}}}
+		// two log records in three belong to a trace (they go through the collector
+		// like spans; the others go straight to Honeycomb)
+		if h := H(seed, "otlp-log", first+i); h%3 != 0 {
+			tid := make([]byte, 16)
+			for b := 0; b < 8; b++ {
+				tid[b] = byte(h >> (8 * b))
+				tid[8+b] = byte(i + 1)
+			}
+			rec.TraceId, rec.SpanId = tid, []byte{9, 2, 3, 4, 5, 6, 7, byte(i + 1)}
+		}
+		recs = append(recs, rec)
 	}
 	req := &collogs.ExportLogsServiceRequest{ResourceLogs: []*logspb.ResourceLogs{{
 		Resource:  &respb.Resource{Attributes: []*commonpb.KeyValue{{Key: "service.name", Value: &commonpb.AnyValue{Value: &commonpb.AnyValue_StringValue{StringValue: "svc"}}}}},
@@ -215,7 +226,7 @@ func runResp(t *testing.T, p *Plan) *Outcome {
 					var body []byte
 					path := "/v1/traces"
 					if op.T == "otlp_logs" {
-						body = otlpLogsBody(rr.markers)
+						body = otlpLogsBody(rr.markers, p.Seed, int(op.N))
 						path = "/v1/logs"
 					} else {
 						body = otlpTraceBody(rr.markers, p.Seed, int(op.N))
